@@ -454,7 +454,16 @@ fn make_twin(parent: &RCase, _doc: &Doc, label: &str, bytes: Vec<u8>) -> Result<
     };
     let mut lim = Limits::for_input(bytes.len());
     lim.debug = false;
-    let mut case = RCase { format: f, name, bytes, vmap, index, scripts: parent.scripts.clone(), expect: Vec::new(), lim, workers_apply: parent.workers_apply, twins: Vec::new(), layout: Some(label.to_string()) };
+    // the layout matters below the record APIs: two sequential scripts, two query scripts, read-query-read
+    let keep = |s: &Script| match s {
+        Script::Seq(a) => *a <= 1,
+        Script::Query(l, _) => matches!(*l, "three-regions" | "unknown-and-empty-references" | "empty-references" | "unknown-reference"),
+        Script::Unmapped => f == Format::Cram,
+        Script::Mixed(_) => true,
+    };
+    let kept: Vec<usize> = (0..parent.scripts.len()).filter(|&i| keep(&parent.scripts[i])).collect();
+    let parent_lines: Vec<usize> = kept.iter().map(|&i| parent.expect[i].lines.len()).collect();
+    let mut case = RCase { format: f, name, bytes, vmap, index, scripts: kept.iter().map(|&i| parent.scripts[i].clone()).collect(), expect: Vec::new(), lim, workers_apply: parent.workers_apply, twins: Vec::new(), layout: Some(label.to_string()) };
     let expect: Vec<Tr> = match vmc::catch(|| case.scripts.iter().map(|s| sync_drive(&case, s)).collect::<Vec<Tr>>()) {
         Ok(e) => e,
         Err((msg, file)) => return Err(format!("sync reader panics: {msg} in {file}")),
@@ -465,8 +474,8 @@ fn make_twin(parent: &RCase, _doc: &Doc, label: &str, bytes: Vec<u8>) -> Result<
             return Err(format!("{}: {}", script_name(f, s), t.lines.last().cloned().unwrap_or_default()));
         }
         // the same content: a sequential trace of the twin has as many lines as the parent's
-        if matches!(s, Script::Seq(_)) && t.lines.len() != parent.expect[i].lines.len() {
-            return Err(format!("{}: sync reads {} lines, {} from the original", script_name(f, s), t.lines.len(), parent.expect[i].lines.len()));
+        if matches!(s, Script::Seq(_)) && t.lines.len() != parent_lines[i] {
+            return Err(format!("{}: sync reads {} lines, {} from the original", script_name(f, s), t.lines.len(), parent_lines[i]));
         }
     }
     case.expect = expect;
